@@ -2,9 +2,9 @@ package storesim
 
 import (
 	"crypto/sha256"
-	"os"
 	"encoding/hex"
 	"fmt"
+	"os"
 	"sort"
 	"strings"
 	"testing"
@@ -36,20 +36,20 @@ type runner struct {
 	st  *simenv.Store
 	res *Result
 
-	bulks     map[int]*bulkState
-	bulkOrder []int
-	issued    map[model.ID]*model.Doc
-	fracOf    map[model.ID]string // learned from hints at quiescent points
-	fracSeen  map[string]bool
-	gone      map[string]bool // fractions observed (completely) gone after a restart
-	stopping  bool            // a graceful stop runs next to other clients: refusals and a dying process are expected
-	hadIndex  map[string]bool // fractions whose published sealed form (.index) was on disk in some boot image
-	forms     map[string]string
-	log       []string
-	states    map[string]bool
-	errFired  bool
-	startedAt time.Time
-	asyncs    map[string]*AsyncReq
+	bulks      map[int]*bulkState
+	bulkOrder  []int
+	issued     map[model.ID]*model.Doc
+	fracOf     map[model.ID]string // learned from hints at quiescent points
+	fracSeen   map[string]bool
+	gone       map[string]bool // fractions observed (completely) gone after a restart
+	stopping   bool            // a graceful stop runs next to other clients: refusals and a dying process are expected
+	hadIndex   map[string]bool // fractions whose published sealed form (.index) was on disk in some boot image
+	forms      map[string]string
+	log        []string
+	states     map[string]bool
+	errFired   bool
+	startedAt  time.Time
+	asyncs     map[string]*AsyncReq
 	asyncFracs map[string][]string
 }
 
@@ -181,7 +181,7 @@ func (r *runner) finish(s *verifsim.Sim) *Result {
 
 var probeMessages = map[string]bool{
 	"cleaning up partially deleted fraction files": true,
-	"append fail":             true,
+	"append fail":              true,
 	"sealing active fractions": true,
 	"truncating last fraction": true,
 }
